@@ -38,3 +38,54 @@ pub fn why_abort(_out: &mut Out) {
         }
     }
 }
+
+/// Diagnostic / replay aid (not a registered stream): `hx explain uff|rb < file.xyz` — types, terms with their
+/// energies at the given geometry, the energy along the optimisation and the terms that dominate afterwards.
+pub fn explain(_out: &mut Out, kind: &str) {
+    use std::io::Read;
+    let mut text = String::new();
+    std::io::stdin().read_to_string(&mut text).unwrap();
+    let mut zs = vec![]; let mut xs = vec![];
+    for l in text.lines().skip(2) {
+        let t: Vec<&str> = l.split_whitespace().collect();
+        if t.len() < 4 { continue; }
+        zs.push(z_of(t[0])); xs.push([t[1].parse().unwrap(), t[2].parse().unwrap(), t[3].parse().unwrap()]);
+    }
+    let m = Mol { name: "stdin".into(), zs, xs };
+    let mut mol = m.build();
+    println!("connectivity: {}", crate::canon::canon_conn(&connectivity(&mol)));
+    if kind == "uff" { if let Some(f) = catch(|| UFF::new(&mol)) { println!("types: {}", crate::s_build::types_text(&f)); } else { println!("UFF construction aborted: {}", LAST_PANIC.lock().unwrap()); return; } }
+    let ff = match FF::build(kind, &mol) { Some(f) => f, None => { println!("construction aborted"); return; } };
+    let terms = ff.terms();
+    println!("{} terms; attribution: {}", terms.len(), crate::s_robust::attribute(&m, &mol, kind));
+    let show = |x: &[Point], label: &str| {
+        let mut rows: Vec<(f64, String)> = terms.iter().map(|t| { let e = make_term(t).energy(x); (e, format!("{} {:?} {:?} E={}", t.kind, t.idxs, t.params, e)) }).collect();
+        rows.sort_by(|a, b| b.0.abs().partial_cmp(&a.0.abs()).unwrap_or(std::cmp::Ordering::Less));
+        println!("-- {}: largest / non-finite term energies", label);
+        for (e, r) in rows.iter().filter(|(e, _)| !e.is_finite()).chain(rows.iter().filter(|(e, _)| e.is_finite()).take(6)) { let _ = e; println!("   {}", r); }
+        let mut grows: Vec<(f64, String)> = terms.iter().map(|t| {
+            let mut g: Vec<Vector3D> = (0..x.len()).map(|_| Vector3D::default()).collect();
+            make_term(t).add_gradient(x, &mut g);
+            let n = g.iter().map(|v| v.x * v.x + v.y * v.y + v.z * v.z).sum::<f64>().sqrt();
+            (n, format!("{} {:?} {:?} |g|={}", t.kind, t.idxs, t.params, n)) }).collect();
+        grows.sort_by(|a, b| b.0.partial_cmp(&a.0).unwrap_or(std::cmp::Ordering::Less));
+        println!("-- {}: largest / non-finite term gradients", label);
+        for (_, r) in grows.iter().filter(|(n, _)| !n.is_finite()).chain(grows.iter().filter(|(n, _)| n.is_finite()).take(4)) { println!("   {}", r); }
+    };
+    show(&mol.coordinates, "start");
+    let mut rec = Recorder::new(Inner::Real(ff));
+    let ok = catch(|| mol.optimise(&mut rec)).is_some();
+    println!("optimise returned: {}", ok);
+    let mut fresh = FF::build(kind, &m.build()).unwrap();
+    let mut k = 0;
+    for ev in rec.log.iter() {
+        if let Event::G(x, g) = ev {
+            let pts: Vec<Point> = x.chunks(3).map(|c| Point { x: c[0], y: c[1], z: c[2] }).collect();
+            let gn = g.iter().map(|v| v * v).sum::<f64>().sqrt();
+            if k < 8 || k % 100 == 0 { println!("grad#{} E={} |g|={}", k, fresh.energy(&pts), gn); }
+            k += 1;
+        }
+    }
+    println!("gradient requests: {}; final E={}", k, fresh.energy(&mol.coordinates));
+    show(&mol.coordinates, "end");
+}
